@@ -213,25 +213,30 @@ def r_independent(ctx, model):
     da = DefiniteAssignment(fn)
     carried = sorted({name for name, node, path in da.problems if name in assigned})
     aug = [src(st) for st in ast.walk(li) if isinstance(st, ast.AugAssign)]
-    rets = [s_ for s_ in ast.walk(f) if isinstance(s_, ast.Return)]
-    outputs = {e.id for e in rets[0].value.elts if isinstance(e, ast.Name)} if rets and isinstance(rets[0].value, ast.Tuple) else set()
-    mutated, read = set(), set()
+    # state carried between iterations: an object that the body both modifies and reads.  Pure writes do not read: the base
+    # name of a subscripted store (`out[:, j, k] = ...`) and the receiver of an append/extend/add/insert statement whose value
+    # is discarded.  Everything else that loads the name (a subscripted load, passing it on, membership tests, .get, .pop,
+    # .setdefault, .update with its own content) is a read.
+    mutated, read, pure = set(), set(), set()
     cross = []
     for nn in ast.walk(li):
-        if isinstance(nn, ast.Subscript) and isinstance(nn.value, ast.Name):
-            if isinstance(nn.ctx, ast.Store):
-                mutated.add(nn.value.id)
-            elif nn.value.id in outputs:
-                cross.append(src(nn))
+        if isinstance(nn, ast.Subscript) and isinstance(nn.value, ast.Name) and isinstance(nn.ctx, (ast.Store, ast.Del)):
+            mutated.add(nn.value.id)
+            pure.add(id(nn.value))
+        if isinstance(nn, ast.Expr) and isinstance(nn.value, ast.Call) and isinstance(nn.value.func, ast.Attribute) \
+                and isinstance(nn.value.func.value, ast.Name) and nn.value.func.attr in ("append", "extend", "add", "insert"):
+            mutated.add(nn.value.func.value.id)
+            pure.add(id(nn.value.func.value))
         if isinstance(nn, ast.Call) and isinstance(nn.func, ast.Attribute) and isinstance(nn.func.value, ast.Name) \
-                and nn.func.attr in ("append", "add", "update", "setdefault", "pop", "extend", "insert"):
+                and nn.func.attr in ("append", "add", "update", "setdefault", "pop", "extend", "insert", "clear", "remove", "popitem", "sort", "fill", "put", "itemset"):
             mutated.add(nn.func.value.id)
-        if isinstance(nn, ast.Name) and isinstance(nn.ctx, ast.Load):
+    for nn in ast.walk(li):
+        if isinstance(nn, ast.Name) and isinstance(nn.ctx, ast.Load) and id(nn) not in pure:
             read.add(nn.id)
-    stateful = sorted((mutated & read) - outputs - assigned)
+            if nn.id in mutated and nn.id not in assigned:
+                cross.append(nn.id)
+    stateful = sorted((mutated & read) - assigned)
     carried = sorted(set(carried) | set(stateful))
-    if cross:
-        carried.append(f"reads of output arrays {cross[:2]}")
     ctx.check(not carried and not aug, "no loop-carried state in the (q, mode) loop", model.where(ref, li), expected="every name assigned in the loop body is assigned before it is read",
               found=f"carried: {carried}; augmented assignments: {aug[:2]}",
               explanation="a value computed for one (q, mode) pair leaks into the next iteration: the result at (q, m) depends on the order "
